@@ -3,7 +3,9 @@
 Proof half: OPM.Properties.C23 — the decorator's state refines the documented five-state machine
 (`follows_protocol` + the two timer lemmas), the Connection Status tag agrees with the state after every history
 (`status_iff_state`), reads/writes never raise in Issue/Reconnect and raise in Error/Disconnected, masked reads
-return the last value successfully read (`masked_read*_returns_last_good`).
+return the last value successfully read (`masked_read*_returns_last_good`, `successful_read_is_fresh`), and the protocol is
+never stuck: from Reconnect or Error, ticks on which connect() succeeds reach OK / Connected as soon as the back-off
+schedule allows, at the latest after 2·max(back-off)+1 ticks (`recovers_within`, `never_stuck`).
 Tie half: the real `ErrorRecoveryDecorator` (virtual clock, scripted fake hardware) against the model, op by op:
 exhaustive op sequences from five start states, random long histories with the production configuration, and a
 malformed stream.  The compared view is the protocol view (state, tag, timers, reconnect tick, results, hardware
@@ -20,12 +22,17 @@ META = dict(
                "five-state machine for the observed event (error / success / time-out / reconnect outcome); the "
                "Connection Status tag reads Disconnected iff the state is Disconnected or Error; reads and writes "
                "never raise in Issue/Reconnect and always raise in Error; masked reads return the last value "
-               "successfully read for the register. The model is tied to hardware_recovery.py by differential "
+               "successfully read for the register; from Reconnect and Error the protocol returns to OK / Connected on the "
+               "next back-off tick on which the reconnect succeeds (never stuck in Error while connect() succeeds). "
+               "The model is tied to hardware_recovery.py by differential "
                "execution (exhaustive short op sequences from every protocol state + random long histories).",
     level_note="Trusted: Lean kernel (+ propext/Classical.choice/Quot.sound), the harness (scripted fake hardware, "
                "virtual clock patched into the hardware_recovery module). Assumes the concrete hardware raises only "
                "HardwareLayerException, callbacks unset, registers used in their declared direction for the "
-               "no-raise claim (a wrong direction is a KeyError in every state).",
+               "no-raise claim (a wrong direction is a KeyError in every state). Reading of the documentation: a time-out "
+               "('if no success within ...') takes effect at the next read/write call after it elapsed (the decorator has "
+               "no timer of its own). The oracle demands an exception in Error only (not its class, nothing for "
+               "Disconnected) and lets an explicit connect() either keep the state or recover to OK.",
     technique="Lean 4 proof (refinement of the documented state machine, invariant by induction over op lists) + "
               "differential correspondence with exhaustive small scopes",
 )
@@ -33,7 +40,8 @@ MODULE = "OPM.Properties.C23"
 REQUIRED = ["OPM.C23.follows_protocol", "OPM.C23.lastSuccess_is_time_of_last_success",
             "OPM.C23.reconnEntered_is_time_of_entry", "OPM.C23.status_iff_state", "OPM.C23.masked_never_raises",
             "OPM.C23.unmasked_raises", "OPM.C23.masked_read_returns_last_good",
-            "OPM.C23.masked_read_batch_returns_last_good", "OPM.C23.reconnect_attempted_iff"]
+            "OPM.C23.masked_read_batch_returns_last_good", "OPM.C23.reconnect_attempted_iff",
+            "OPM.C23.successful_read_is_fresh", "OPM.C23.recovers_within", "OPM.C23.never_stuck"]
 
 T1, T2 = 80, 160            # 10 s / 20 s in eighths (exhaustive streams)
 INIT_SMALL = f"init\t{{c}}\t{T1}\t{T2}\t0,2\t0\t0\tproto"
@@ -143,9 +151,15 @@ def gen_random(ctx: Check, n: int, malformed: bool) -> list[list[str]]:
 
 def doc_next(state: str, ev: str, since_success: int, in_reconnect: int, t1: int, t2: int) -> set[str]:
     """docs/src/Error Recovery.rst, "Handling of Hardware Connection Errors": the states the documentation allows
-    after `ev` in `state`.  Exactly at a time-out boundary (elapsed == time-out) the text allows both readings."""
+    after `ev` in `state`.  Exactly at a time-out boundary (elapsed == time-out) the text allows both readings.
+    Reading of the text used here (and in `docNext` of the Lean file): a time-out takes effect at the next read/write
+    call after it elapsed — the decorator has no timer of its own, and the documentation names no other trigger."""
     if state == "Disconnected":
         return {"OK"} if ev == "connect-ok" else {state}
+    if ev == "connect-ok":
+        # "Once an engine is connected to hardware I/O, state is OK": an explicit connect() that succeeds may keep
+        # the state (as the code does) or recover to OK; the text demands neither
+        return {state, "OK"}
     if state == "OK":
         return {"Issue"} if ev == "rw-fail" else {state}
     if state == "Issue":
@@ -165,11 +179,23 @@ def doc_next(state: str, ev: str, since_success: int, in_reconnect: int, t1: int
     return {state}
 
 
+def is_backoff(bk: list[int], t: int) -> bool:
+    """the documented back-off schedule: the listed ticks, then every multiple of the largest one"""
+    return t in bk or (t > bk[-1] and t % bk[-1] == 0)
+
+
 def oracle(lines: list[str]) -> list[Failure]:
+    """Safety: state follows the documented machine, tag agrees with the state, no exception while masking, exception
+    in Error, masked reads return the last good value, a read answered by the hardware returns that answer.
+    Recovery: a history that ends in Reconnect or Error is continued with ticks on which the hardware accepts the
+    reconnect, as many as the back-off schedule needs from the ticks already spent; the decorator must then be in
+    state OK with the tag reading Connected (theorem `recovers_within`: never stuck while connect() succeeds)."""
     from harness import hwrec
+    lines = list(lines)                       # extended by the recovery clause
     f0 = lines[0].split("\t")
     t1, t2 = int(f0[2]), int(f0[3])
-    st = {"state": None, "now": 0, "last_success": 0, "entered": 0, "good": {}}
+    bk = [int(x) for x in f0[4].split(",")]
+    st = {"state": None, "now": 0, "last_success": 0, "entered": 0, "good": {}, "ticks": 0}
     fails: list[Failure] = []
 
     def bad(key, i, detail):
@@ -213,8 +239,12 @@ def oracle(lines: list[str]) -> list[Failure]:
         if is_rw and dirs_ok:
             if prev in ("Issue", "Reconnect") and raised:
                 bad(f"raised-while-masking:{prev}", i, f"{last['res']} in state {prev}")
-            if prev in ("Error", "Disconnected") and last["res"] != "raise:Hw":
-                bad(f"no-hardware-exception-in:{prev}", i, f"result {last['res']} in state {prev}")
+            if prev == "Error" and not raised:
+                bad("no-exception-in:Error", i, f"result {last['res']} in state Error")
+            if kind in ("read", "readb") and prev == "Issue" and last["contact"] is True:
+                want = "vals:" + f[2]
+                if last["res"] != want:
+                    bad("answered-read-in-Issue-returns-other-value", i, f"hardware answered {want}, caller got {last['res']}")
             if kind in ("read", "readb") and not raised and prev in ("OK", "Issue", "Reconnect") \
                     and (prev == "Reconnect" or last["contact"] is False):
                 regs = [f[1]] if kind == "read" else hwrec.lst(f[1])
@@ -233,9 +263,36 @@ def oracle(lines: list[str]) -> list[Failure]:
                     st["good"][r[:-1]] = v
         if state == "Reconnect" and prev != "Reconnect":
             st["entered"] = st["now"]
+        if kind == "tick" and prev in ("Reconnect", "Error"):
+            st["ticks"] += 1
+        if state not in ("Reconnect", "Error"):
+            st["ticks"] = 0
         st["state"] = state
 
-    hwrec.run_impl(lines, observe)
+    impl = hwrec.Impl(lines[0])
+    observe(0, lines[0], impl)
+    for i, ln in enumerate(lines[1:], 1):
+        impl.op(ln)
+        observe(i, ln, impl)
+    # recovery clause
+    stuck = st["state"]
+    if stuck in ("Reconnect", "Error") and not fails:
+        n = st["ticks"]                       # ticks already spent in Reconnect/Error since the last recovery
+        t = next(x for x in range(n, n + 2 * bk[-1] + 1) if is_backoff(bk, x))
+        need = t - n + 1
+        seen_reconnect = False
+        for _ in range(need):
+            lines.append("tick\t1")
+            impl.op("tick\t1")
+            seen_reconnect = seen_reconnect or impl.last["reconn"] is True
+            observe(len(lines) - 1, "tick\t1", impl)
+            if impl.d.state.name == "OK":
+                break
+        state, status = impl.d.state.name, str(impl.tag.get_value())
+        if state != "OK" or status != "Connected" or not seen_reconnect:
+            bad(f"stuck-in:{stuck}-although-reconnect-succeeds", len(lines) - 1,
+                f"{need} ticks with a hardware that accepts connect() after {n} ticks in {stuck} (back-off {bk}): "
+                f"state {state}, Connection Status {status!r}, reconnect attempted: {seen_reconnect}")
     return fails
 
 
